@@ -68,6 +68,21 @@ def iter_tuples(out):
         pos = j + 1
 
 
+def _unescape(s):
+    out = []
+    i = 0
+    while i < len(s):
+        ch = s[i]
+        if ch == "\\" and i + 1 < len(s):
+            nx = s[i + 1]
+            out.append({"n": "\n", "t": "\t", "r": "\r", "f": "\f"}.get(nx, nx))
+            i += 2
+        else:
+            out.append(ch)
+            i += 1
+    return "".join(out)
+
+
 def parse_stats(out):
     g = d = 0
     for m in STATS_RE.finditer(out):
@@ -112,6 +127,10 @@ def _run_shard(args):
         for kind, strs in iter_tuples(out):
             if kind == "B":
                 begun = strs[0] if strs else None
+            elif kind == "G":
+                cid = strs[0]
+                results[cid] = json.loads(_unescape(strs[1]))
+                done.add(cid)
             elif kind == "R":
                 cid = strs[0]
                 verdicts = []
